@@ -49,6 +49,11 @@ pub struct Case {
     /// carries a key the schema does not know ("notes")
     #[serde(default)]
     pub sparse_json: bool,
+    /// the server's own configuration (CLI): CDN hosts and default CDN path; None = "cdn.example.test" / "tpr/default"
+    #[serde(default)]
+    pub cfg_cdn_hosts: Option<String>,
+    #[serde(default)]
+    pub cfg_cdn_path: Option<String>,
 }
 
 fn hash32(seed: u64, salt: u64) -> String {
@@ -112,7 +117,7 @@ impl Scenario for Ribbit {
         "exploration"
     }
     fn rule(&self) -> &'static str {
-        "Per run: a generated build database of 1-6 records (shapes: dates in March 2024 or - one database in five - across 1999 ... 9999 and all months; build numbers now and then 0 / 2^31-1 / 2^31 / 2^32-1; one database in ten with two products whose names differ only in case, a trailing '_' or '.classic'; one in thirty with one product of 300-800 builds, one in thirty with 120-300 products (summary of tens of KiB); one in five written with absent optional fields left out and an unknown key; record ids unique or - one database in five - repeating / descending / near u64::MAX; one database in ten with one build_time string for all records; product names command-safe, one database in twenty with a LONG one - 200 to 4000 bytes, among them lengths that put the TCP request line just below / at / above 1 KiB; version/build/keyring/cdn_path strings from the classes plain, digits, leading zeros, with '|', with '#', with spaces, with CR/LF, non-ASCII, 1 KiB long, look-alikes of the wire framing (MIME boundary, Checksum line, BPSV type marker, seqn line), non-numeric build, non-hex keyring; several builds per product with RFC 3339 timestamps in varying offsets and precisions incl. exact ties) is written to the sandbox and loaded by the REAL server state; databases the server rejects are vacuous. The real TCP accept loop + handle_connection run on the simulated listener and the real axum Router is driven in-process; 1-5 clients start concurrently at seeded virtual times: well-formed requests through the real RibbitClient (TCP v1 with MIME + checksum verification, TCP v2) and real TactClient (HTTP), and malformed ones (unknown product/version, wrong arity, empty line, 64 KiB line, non-UTF-8, never terminated, one byte per virtual second, connect-and-close) over raw simulated connections. Oracle: every row's typed fields equal the record with the chronologically newest build_time of that product; malformed requests end in an error reply or a closed connection within 10 virtual minutes (the server's own read time-out is 10 s; the bound is generous because that time-out is tuning, not part of the property); no task panics; after the last malformed client has started a fresh well-formed request is answered correctly within 3 virtual seconds (a server that serialises connections behind a stalled client takes its whole read time-out). Non-trivial = >= 2 clients; distinct = hash of (case, outcomes)."
+        "Per run: a generated build database of 1-6 records (server configuration: one CDN host and path, or - one run in six - several hosts, hosts with query parameters, no host, a default path with a trailing slash or empty; shapes: dates in March 2024 or - one database in five - across 1999 ... 9999 and all months; build numbers now and then 0 / 2^31-1 / 2^31 / 2^32-1; one database in ten with two products whose names differ only in case, a trailing '_' or '.classic'; one in thirty with one product of 300-800 builds, one in thirty with 120-300 products (summary of tens of KiB); one in five written with absent optional fields left out and an unknown key; record ids unique or - one database in five - repeating / descending / near u64::MAX; one database in ten with one build_time string for all records; product names command-safe, one database in twenty with a LONG one - 200 to 4000 bytes, among them lengths that put the TCP request line just below / at / above 1 KiB; version/build/keyring/cdn_path strings from the classes plain, digits, leading zeros, with '|', with '#', with spaces, with CR/LF, non-ASCII, 1 KiB long, look-alikes of the wire framing (MIME boundary, Checksum line, BPSV type marker, seqn line), non-numeric build, non-hex keyring; several builds per product with RFC 3339 timestamps in varying offsets and precisions incl. exact ties) is written to the sandbox and loaded by the REAL server state; databases the server rejects are vacuous. The real TCP accept loop + handle_connection run on the simulated listener and the real axum Router is driven in-process; 1-5 clients start concurrently at seeded virtual times: well-formed requests through the real RibbitClient (TCP v1 with MIME + checksum verification, TCP v2) and real TactClient (HTTP), and malformed ones (unknown product/version, wrong arity, empty line, 64 KiB line, non-UTF-8, never terminated, one byte per virtual second, connect-and-close) over raw simulated connections. Oracle: every row's typed fields equal the record with the chronologically newest build_time of that product; malformed requests end in an error reply or a closed connection within 10 virtual minutes (the server's own read time-out is 10 s; the bound is generous because that time-out is tuning, not part of the property); no task panics; after the last malformed client has started a fresh well-formed request is answered correctly within 3 virtual seconds (a server that serialises connections behind a stalled client takes its whole read time-out). Non-trivial = >= 2 clients; distinct = hash of (case, outcomes)."
     }
     fn assumptions(&self) -> Vec<&'static str> {
         vec![
@@ -329,7 +334,14 @@ impl Scenario for Ribbit {
             seg = "random".into();
         }
         let sparse_json = rng.chance(1, 5);
-        Case { db, clients, seg, net_seed, id_style, sparse_json }
+        // the server's own CDN configuration: several hosts, a host with a query parameter, none at all; a default
+        // path with a trailing slash, an empty one (one run in six)
+        let (cfg_cdn_hosts, cfg_cdn_path) = if rng.chance(1, 6) {
+            (Some((*rng.pick(&["a.test b.test c.test", "a.test?fallback=1 b.test?maxhosts=4", "", "edge-01.cdn.example.test"])).to_string()), Some((*rng.pick(&["tpr/wow/", "", "tpr/default", "tpr/configs/data"])).to_string()))
+        } else {
+            (None, None)
+        };
+        Case { db, clients, seg, net_seed, id_style, sparse_json, cfg_cdn_hosts, cfg_cdn_path }
     }
 
     fn execute(&self, case: &Case, ctx: &mut Ctx) -> Option<Violation> {
@@ -442,8 +454,8 @@ async fn run(case: &Case, ctx: &mut Ctx) -> Option<Violation> {
         http_bind: "127.0.0.1:8080".parse().ok()?,
         tcp_bind: "127.0.0.1:1119".parse().ok()?,
         builds: dbfile,
-        cdn_hosts: "cdn.example.test".into(),
-        cdn_path: "tpr/default".into(),
+        cdn_hosts: case.cfg_cdn_hosts.clone().unwrap_or_else(|| "cdn.example.test".into()),
+        cdn_path: case.cfg_cdn_path.clone().unwrap_or_else(|| "tpr/default".into()),
         tls_cert: None,
         tls_key: None,
     };
